@@ -85,6 +85,7 @@ class IndexInterp:
         self.env = dict(env or {})
         self.symbolic = set(symbolic)       # names of arrays whose contents are symbolic
         self.on_call = on_call              # callback(node, interp) -> value or NotImplemented
+        self.on_compare = None              # callback(left, op name, right, node) -> value or NotImplemented (comparisons that build objects)
         self.steps = 0
         self.matrices = []
         self.events = []                    # statement-level calls (ast.Expr of a Call) with evaluated arguments
@@ -171,6 +172,11 @@ class IndexInterp:
             left = self.ev(e.left)
             for op, r in zip(e.ops, e.comparators):
                 right = self.ev(r)
+                if self.on_compare is not None and len(e.ops) == 1 and (isinstance(left, SymObj) or isinstance(right, SymObj)) \
+                        and isinstance(op, (ast.LtE, ast.GtE, ast.Lt, ast.Gt, ast.Eq)):
+                    res = self.on_compare(left, type(op).__name__, right, e)
+                    if res is not NotImplemented:
+                        return res
                 if (_is_rat(left) or _is_rat(right)) and isinstance(op, (ast.Eq, ast.NotEq)) and all(_is_rat(x) or isinstance(x, (int, float)) for x in (left, right)):
                     # exact rationals: a symbolic weight is generic (equal to nothing but itself); Rat(0) == 0
                     from fractions import Fraction
@@ -230,6 +236,11 @@ class IndexInterp:
                 if idx in base:
                     return base[idx]
                 raise AnalysisError("KeyError: `%s`" % src(e)[:60])
+            if isinstance(base, str) and (isinstance(idx, int) or (is_token(idx) and idx[0] == "slice" and all(x is None or isinstance(x, int) for x in idx[1:]))):
+                try:
+                    return base[idx] if isinstance(idx, int) else base[slice(idx[1], idx[2], idx[3])]
+                except IndexError:
+                    raise AnalysisError("index out of range in `%s`" % src(e))
             if isinstance(base, (list, tuple)) and not is_token(base) and is_token(idx) and idx[0] == "slice" \
                     and all(x is None or isinstance(x, int) for x in idx[1:]):
                 return base[slice(idx[1], idx[2], idx[3])]
@@ -361,6 +372,11 @@ class IndexInterp:
             return len(args[0])
         if plain and nm in ("max", "min") and args and all(isinstance(a, (int, float)) for a in args):
             return max(args) if nm == "max" else min(args)
+        if plain and nm == "int" and len(args) == 1 and isinstance(args[0], str):
+            try:
+                return int(args[0])
+            except ValueError:
+                raise AnalysisError("the index program raises: int(%r)" % args[0])
         if plain and nm in ("int", "float", "abs") and len(args) == 1 and isinstance(args[0], (int, float)):
             return {"int": int, "float": float, "abs": abs}[nm](args[0])
         if nm in ("zeros", "empty", "zeros_like", "empty_like") and not isinstance(e.func, ast.Name):
@@ -374,6 +390,13 @@ class IndexInterp:
             return m
         if nm in ("array", "asarray") and not isinstance(e.func, ast.Name) and len(args) == 1 and isinstance(args[0], (list, tuple)) and not is_token(args[0]):
             return list(args[0])
+        if isinstance(e.func, ast.Attribute) and nm in ("startswith", "endswith", "lower", "upper", "strip", "format", "split", "join"):
+            try:
+                base = self.ev(e.func.value)
+            except AnalysisError:
+                base = None
+            if isinstance(base, str) and all(isinstance(a, (str, int, float, tuple)) and not is_token(a) for a in args):
+                return getattr(base, nm)(*args)
         if isinstance(e.func, ast.Attribute) and nm in ("items", "keys", "values", "get", "copy"):
             base = self.ev(e.func.value)
             if isinstance(base, dict):
